@@ -62,6 +62,12 @@ pub const TEXT_CARRIERS: &[&str] = &[
     "from t | select {x = @§}",
     "from t | select {x = 1§}",
     "from t | select {x = $§}",
+    "from_text format:json '[{\"a\": \"§\"}]'",
+    "from_text format:json '[{\"§\": 1}]'",
+    "from_text format:csv 'a,b\n§,1'",
+    "from_text format:csv '§,b\n1,2'",
+    "from_text format:json '§'",
+    "from_text format:csv '§'",
 ];
 
 /// numeric positions (§ = value) of the "numbers" part
@@ -104,6 +110,12 @@ pub const NUM_CARRIERS: &[&str] = &[
     "let f = func p1 p2:§ -> p1 + p2\nfrom t | select {x = f §}",
     "from t | sort {§} | take §",
     "from t | select {x = $§}",
+    // numbers inside embedded data
+    "from_text format:json '[{\"a\": §}]'",
+    "from_text format:json '[{\"a\": §, \"b\": §}]' | select {a}",
+    "from_text format:json '{\"columns\": [\"a\"], \"data\": [[§], [§]]}'",
+    "from_text format:csv \"\"\"a,b\n§,§\"\"\"",
+    "from_text \"\"\"a\n§\"\"\"",
 ];
 
 /// the first LEX_CORE items of LEX form the core alphabet used for the longest sequences
